@@ -423,7 +423,7 @@ class InternationalizationExtension(Extension):
             next(parser.stream)
 
         # register free names as simple name expressions
-        for name in referenced:
+        for name in sorted(referenced):
             if name not in variables:
                 variables[name] = nodes.Name(name, "load")
 
